@@ -449,6 +449,42 @@ def detached_probe(res, hist, j, edit):
         res.violation('C15.noraise', f'{guard.crash_site(e)}|detached', case, 'DOMException or success', repr(e)[:300], size=len(hist))
 
 
+def direct_move_probe(res, hist, j):
+    """style rule j of A is added to B while it still belongs to A (no delete first): B refuses it, or B is consistent afterwards"""
+    case = {'kind': 'direct-move', 'history': [list(h) for h in hist], 'rule': j}
+    size = len(hist) * 1000 + len(jdump(case))
+    try:
+        with guard.watchdog(20):
+            a, b, _ = build(hist)
+            inherited = {(c, g) for c, g, _e, _o in invariant(Result(0), b, 'B')}
+            rule = _strules(a)[j]
+            pairs0 = tuple(pairs(s) for s in rule.selectorList)
+            res.transitions += 1
+            res.evaluations += 1
+            res.clauses['C15.direct-move'] += 1
+            try:
+                b.add(rule)
+            except xml.dom.DOMException as e:
+                res.outcomes.add(h64(('direct-move', 'rejected', type(e).__name__)))
+                return
+            res.outcomes.add(h64(('direct-move', 'ok')))
+            for clause, sig, exp, obs in invariant(res, b, 'B'):
+                if (clause, sig) not in inherited:
+                    res.violation(clause, f'{sig}|after=direct-move', case, exp, obs, size=size)
+                    return
+            moved = tuple(pairs(s) for s in rule.selectorList)
+            if _prefixed_only((moved,)) != _prefixed_only((pairs0,)):
+                res.violation('C15.meaning-kept', 'direct-move|prefixed-name-denotes-other-pair', case, pairs0, moved, size=size)
+                return
+            rp = reparse(res, b)
+            if rp:
+                res.violation(rp[0], rp[1] + '|direct-move', case, {'dom': rp[2]}, {'reparsed': rp[3]}, size=size)
+    except guard.Timeout:
+        res.violation('C15.terminates', 'timeout|direct-move', case, 'answer', 'timeout')
+    except Exception as e:
+        res.violation('C15.noraise', f'{guard.crash_site(e)}|direct-move', case, 'DOMException or success', repr(e)[:300], size=len(hist))
+
+
 def expand(batch, tier, seed):
     res = Result(seed)
     for hist in batch:
@@ -469,6 +505,7 @@ def expand(batch, tier, seed):
         for j in range(len(_strules(a))):
             for edit in list(_ns_edits(a)):
                 detached_probe(res, hist, j, edit)
+            direct_move_probe(res, hist, j)
         res.sample({'kind': 'history', 'history': [list(h) for h in hist]})
     guard.pristine()
     return res
@@ -493,6 +530,8 @@ def replay(case, tier, seed):
     hist = tuple(tuple(h) for h in case['history'])
     if case.get('kind') == 'detached':
         detached_probe(res, hist, case['rule'], tuple(case['edit']))
+    elif case.get('kind') == 'direct-move':
+        direct_move_probe(res, hist, case['rule'])
     elif len(hist) >= 2:
         step(res, hist[:-1], hist[-1], tier)
     guard.pristine()
